@@ -470,7 +470,23 @@ func (b *builder) region(depth int) (int, int) {
 }
 
 func drawGraph(t *rapid.T) (adj [][]int, root int) {
-	switch rapid.IntRange(0, 3).Draw(t, "family") {
+	switch rapid.IntRange(0, 4).Draw(t, "family") {
+	case 4: // sparse random graphs of 20..40 nodes with out-degree about 2 and self-loops: long
+		// dominator chains through irreducible regions, where the iterative algorithm needs
+		// several passes and the order of the predecessor lists matters
+		n := rapid.IntRange(20, 40).Draw(t, "nsparse")
+		adj = make([][]int, n)
+		for u := range adj {
+			adj[u] = []int{}
+			for k := rapid.SampledFrom([]int{2, 2, 1, 3}).Draw(t, "sdeg"); k > 0; k-- {
+				v := rapid.IntRange(0, n-1).Draw(t, "sto")
+				if rapid.IntRange(0, 9).Draw(t, "selfLoop") == 0 {
+					v = u
+				}
+				adj[u] = append(adj[u], v)
+			}
+		}
+		return adj, rapid.IntRange(0, n-1).Draw(t, "sroot")
 	case 0: // structured reducible, possibly made irreducible and with unreachable parts
 		b := &builder{t: t}
 		root, _ = b.region(rapid.IntRange(1, 4).Draw(t, "depth"))
@@ -516,7 +532,7 @@ func drawGraph(t *rapid.T) (adj [][]int, root int) {
 
 func TestRandom(t *testing.T) {
 	ev.Rule(rule)
-	ev.Rapid(t, "c19-random", 3000, 240000, func(rt *rapid.T) {
+	ev.Rapid(t, "c19-random", 24000, 480000, func(rt *rapid.T) {
 		adj, root := drawGraph(rt)
 		checkDom.Run(rt, &Case{Adj: adj, Root: root})
 	})
